@@ -431,10 +431,18 @@ func scalarReflectFromGo(schema *schema_j5pb.Field, value interface{}) (protoref
 	}
 }
 
+// maxDecimalExponent bounds the power of ten of an accepted decimal: the
+// stored form is written out in full, so "1e999999999" would otherwise expand
+// to a gigabyte of zeros.
+const maxDecimalExponent = 1000
+
 func decimalFromString(val string) (protoreflect.Value, error) {
 	d, err := decimal.NewFromString(val)
 	if err != nil {
 		return protoreflect.Value{}, err
+	}
+	if exp := d.Exponent(); exp > maxDecimalExponent || exp < -maxDecimalExponent {
+		return protoreflect.Value{}, fmt.Errorf("decimal exponent %d out of range", exp)
 	}
 	msg := decimal_j5t.FromShop(d)
 	return protoreflect.ValueOfMessage(msg.ProtoReflect()), nil
